@@ -31,7 +31,8 @@ import (
 // the in-process server, the client replaces the content by After, the
 // revision is restored, and finally the document is compacted.
 type SCase struct {
-	Lit Node `json:"lit"`
+	Sharp bool `json:"sharp,omitempty"` // as HCase.Sharp, for Steps
+	Lit   Node `json:"lit"`
 	// Steps: edit steps (prog alphabet and the extended one) made by the client
 	// on top of the literal; when present the fixed schema of prog.InitDoc is
 	// created first.
@@ -170,6 +171,7 @@ func buildTyped(d *document.Document, lit Node, rename func(string) string) erro
 // evalServer runs one case against the in-process server.
 func evalServer(c SCase) (fail *kit.Failure, ev map[string]int, sh *shape) {
 	ev = map[string]int{}
+	useTables(c.Sharp)
 	lit := c.Lit.YSON().(yson.Object)
 	sh = classify(lit)
 	if len(c.Steps) > 0 {
@@ -357,6 +359,7 @@ func TestC18Server(t *testing.T) {
 	editPool := append(append(append([]string{}, hExtOps...), hExtOps...), prog.Ops(prog.AllEditKinds...)...)
 	rapid.Check(t, func(rt *rapid.T) {
 		c := SCase{Lit: lit.Draw(rt, "literal")}
+		c.Sharp = curCtx.sharp
 		if rapid.Bool().Draw(rt, "edits") {
 			c.Steps = rapid.SliceOfN(genHStep(editPool), 1, 10).Draw(rt, "steps")
 		}
